@@ -241,7 +241,7 @@ for fn in glob.glob(os.path.join(HERE, "src", "*.rs")):
         src_names.add(m.group(1))
 src_names.discard("a1_u16_div_rem_wide")   # mentioned in a comment only, not generated
 ndis = 0
-for name in sorted(src_names - set(RES)):
+for name in sorted(n for n in (src_names - set(RES)) if MINE.match(n)):
     prop, cfg, rest, kindtag, mode = split(name)
     kind = "axiom" if prop == "a1" else "must_panic" if kindtag == "mp" else "value"
     e = {"name": name, "property": prop.upper(), "tier": "thorough", "config": ("%s (oracle: %s)" % CFG[cfg]) if cfg in CFG else cfg,
